@@ -1644,7 +1644,20 @@ def check_powi_loop(fx):
     rep.check(all(oks.values()), "R26", "powi special cases n = 0, 1, -1", "powi-special",
               "powi special cases deviate: n=0 -> (0^0 ? NaN : 1) %s; n=1 -> self %s; n=-1 -> 1/self %s" % (oks.get(0), oks.get(1), oks.get(-1)), where=H.where(b),
               detail="0 -> NaN for 0^0 else 1; 1 -> self; -1 -> recip(self)")
-    ex = vg.Exec(f, vg.Policy(f, "op", keep=H.primitive_idents(f), inline_private=True), loops="havoc")
+    # the loop may sit in a private helper of powi (`fn powu(self, n: u32)` called with |n|): such a helper - crate-local, reached by a
+    # direct call from powi, not an operator, not part of the named API - is read in place, loop included (what powi computes through
+    # it is what it computes); its loop variables are then the ones examined below
+    loop_helpers = []
+    pol0 = vg.Policy(f, "op")
+    for blk in b.mir["blocks"]:
+        tt = blk["t"]
+        if tt["k"] == "call":
+            r = (tt.get("f") or {}).get("res") or {}
+            cb = f.by_key.get(r.get("key")) if r.get("local") else None
+            if cb is not None and cb.key != b.key and cb.kind != "Closure" and cb.trait is None and cb.ident() not in vg.NAMED_API \
+                    and pol0.op_of(cb) is None and pol0.has_loop_or_recursion(cb) and cb.ident() not in loop_helpers:
+                loop_helpers.append(cb.ident())
+    ex = vg.Exec(f, vg.Policy(f, "op", keep=H.primitive_idents(f), inline_private=True, inline_extra=tuple(loop_helpers)), loops="havoc")
     try:
         t = ex.run_body(b)
     except vg.Unsupported as u:
@@ -1666,9 +1679,11 @@ def check_powi_loop(fx):
         if g[0] == "if" and ("unreachable",) in (g[2], g[3]):
             g = g[3] if g[2] == ("unreachable",) else g[2]; continue      # an assumed debug assertion
         break
-    entries = [e for e in ex.loop_entries if e[0] == b.ident()]
+    entries = [e for e in ex.loop_entries if e[0] == b.ident()] or [e for e in ex.loop_entries if e[0] in loop_helpers]
     if not entries:
         return fail("no loop found")
+    if len({(e[0], e[1]) for e in ex.loop_entries}) != 1:
+        return fail("more than one loop on the way from powi's entry to its result")
     entry = entries[0][2]
     hv_of = {hv: (l, before) for l, (before, hv) in entry.items()}
     UTYS = ("u32", "u64", "u128", "usize")      # unsigned counter types that hold |i32::MIN|
